@@ -212,3 +212,4 @@ MANIFEST = {
             'in vp/props/c11.py from the shipped output.',
 }
 MANIFEST['text'] += (' ' + 'The enumerating back end returns either the tightest or the slackest optimal values of the auxiliary variables; 12% of the cases are large or sparse-id-embedded instances on real CBC; cases may carry decoy objects on sibling instances.')
+MANIFEST['text'] += (' ' + '12% of the small cases have lecturer targets outside [lower, upper] quota (with load-balancing criteria): the statistics are recomputed from the file all the same.')
